@@ -595,7 +595,7 @@ def fold_append_sequences(fnode):
         for st in stmts:
             c = st.value if isinstance(st, ast.Expr) and isinstance(st.value, ast.Call) else None
             if c is not None and isinstance(c.func, ast.Attribute) and c.func.attr == "append" and isinstance(c.func.value, ast.Name) and len(c.args) == 1 and not c.keywords \
-                    and c.func.value.id in pending and c.func.value.id not in names(c.args[0]):
+                    and c.func.value.id in pending and isinstance(pending[c.func.value.id][0].value, ast.List) and c.func.value.id not in names(c.args[0]):
                 x = c.func.value.id
                 old, owner = pending[x]
                 new = ast.copy_location(ast.Assign(targets=[ast.Name(id=x, ctx=ast.Store())], value=ast.List(elts=list(old.value.elts) + [c.args[0]], ctx=ast.Load()), lineno=st.lineno), st)
@@ -606,6 +606,22 @@ def fold_append_sequences(fnode):
                 out.append(new)
                 pending[x] = (new, out)
                 continue
+            # d = {..}; d["k"] = v  with nothing else touching d in between -> d = {.., "k": v}   (a key that the display does not have yet)
+            if isinstance(st, ast.Assign) and len(st.targets) == 1 and isinstance(st.targets[0], ast.Subscript) and isinstance(st.targets[0].value, ast.Name) \
+                    and st.targets[0].value.id in pending and isinstance(pending[st.targets[0].value.id][0].value, ast.Dict) and isinstance(st.targets[0].slice, ast.Constant) \
+                    and st.targets[0].value.id not in names(st.value):
+                x = st.targets[0].value.id
+                old, owner = pending[x]
+                if None not in old.value.keys and all(isinstance(k, ast.Constant) for k in old.value.keys) and st.targets[0].slice.value not in [k.value for k in old.value.keys]:
+                    new = ast.copy_location(ast.Assign(targets=[ast.Name(id=x, ctx=ast.Store())],
+                                                       value=ast.Dict(keys=list(old.value.keys) + [st.targets[0].slice], values=list(old.value.values) + [st.value]), lineno=st.lineno), st)
+                    for i, o in enumerate(owner):
+                        if o is old:
+                            del owner[i]
+                            break
+                    out.append(new)
+                    pending[x] = (new, out)
+                    continue
             if isinstance(st, (ast.With, ast.AsyncWith)):
                 for x in list(pending):
                     if any(x in names(i.context_expr) for i in st.items):
@@ -622,7 +638,7 @@ def fold_append_sequences(fnode):
                 sub = getattr(st, fld, None)
                 if isinstance(sub, list) and sub and isinstance(sub[0], ast.stmt) and not isinstance(st, (ast.FunctionDef, ast.ClassDef)):
                     setattr(st, fld, rewrite(sub, {}))
-            if isinstance(st, ast.Assign) and len(st.targets) == 1 and isinstance(st.targets[0], ast.Name) and isinstance(st.value, ast.List) \
+            if isinstance(st, ast.Assign) and len(st.targets) == 1 and isinstance(st.targets[0], ast.Name) and isinstance(st.value, (ast.List, ast.Dict)) \
                     and st.targets[0].id not in names(st.value):
                 pending[st.targets[0].id] = (st, out)
             out.append(st)
